@@ -194,6 +194,10 @@ typedef struct {
 int signature_mark(void *p, size_t s) {
     (void) s;
     JanetFFISignature *sig = p;
+    /* The return type can be a struct type as well */
+    if (sig->ret.type.prim == JANET_FFI_TYPE_STRUCT) {
+        janet_mark(janet_wrap_abstract(sig->ret.type.st));
+    }
     for (uint32_t i = 0; i < sig->arg_count; i++) {
         JanetFFIType t = sig->args[i].type;
         if (t.prim == JANET_FFI_TYPE_STRUCT) {
